@@ -21,8 +21,8 @@ from common import hexs, unhexs, rng
 
 FAMILY = "dialect"
 HARNESS = {"source": "x_dialect.c", "exclude_objs": ["ciffile"], "leak_clean": True}
-RULE = ("EXHAUSTIVE over {no magic, #\\#CIF_1.0, #\\#CIF_1.1, #\\#CIF_2.0, magic after a blank line, #\\#CIF_2.0 followed by a "
-        "non-space} x {signature, none} x prefer_cif2 in {-1,0,1,19,20} x {UTF-8, UTF-16LE/BE, UTF-32LE/BE, ISO-8859-1} x "
+RULE = ("EXHAUSTIVE over {no magic, magic after a blank line, #\\#CIF_2.0 followed by a non-space, {#\\#CIF_1.0, #\\#CIF_1.1, "
+        "#\\#CIF_2.0} x terminator {LF, CR, CR LF, blank, tab, blank+CR, tab+CR LF, end of input}} x {signature, none} x prefer_cif2 in {-1,0,1,19,20} x {UTF-8, UTF-16LE/BE, UTF-32LE/BE, ISO-8859-1} x "
         "force_default_encoding x default_encoding_name {NULL, the file's encoding} x 5 probe documents whose reading differs by "
         "dialect; plus short / empty / BOM-only / second-BOM / non-ASCII inputs and random prefer_cif2 values. non-trivial = every "
         "cell (each is a distinct configuration). oracle: the documented table (this file), applied to the encoding cif_parse "
@@ -34,8 +34,15 @@ WIDE = ("utf16le", "utf16be", "utf32le", "utf32be")
 MAGIC2 = "#\\#CIF_2.0"
 WRONG_ENCODING, DISALLOWED_CHAR = 110, 104
 
-MAGICS = {"none": "", "v10": "#\\#CIF_1.0\n", "v11": "#\\#CIF_1.1\n", "v20": MAGIC2 + "\n", "blank20": "\n" + MAGIC2 + "\n",
-          "v20x": MAGIC2 + "x\n"}
+# what may follow the ten characters of a version comment: each line-terminator convention, a blank, a tab (the rest of that
+# line is then part of the comment, so the probe starts on the next line) — and the end of the input (TERMINATED_ONLY below)
+TERMINATORS = {"lf": "\n", "cr": "\r", "crlf": "\r\n", "sp": " \n", "tab": "\t\n", "spcr": " \r", "tabcrlf": "\t\r\n"}
+CODES = {"v10": "#\\#CIF_1.0", "v11": "#\\#CIF_1.1", "v20": MAGIC2}
+MAGICS = {"none": "", "blank20": "\n" + MAGIC2 + "\n", "v20x": MAGIC2 + "x\n"}
+for _c, _code in CODES.items():
+    for _t, _term in TERMINATORS.items():
+        MAGICS[_c if _t == "lf" else _c + "-" + _t] = _code + _term
+TERMINATED_ONLY = list(CODES.values())        # the version comment is the whole input
 PROBES = {"list": "data_p _x [a b]\n", "its": "data_p _x 'it's'\n", "table": "data_p _x {'k':v}\n", "triple": "data_p _x '''x'''\n",
           "folded": "data_p _x\n;\\\nab\\\ncd\n;\n"}
 EXTRA_TEXTS = ["", "#", "#x", "d", MAGIC2, MAGIC2 + " ", MAGIC2 + "\tdata_p _x [a b]\n", MAGIC2[:9], MAGIC2[:9] + "\n",
@@ -62,9 +69,16 @@ def generate(seed, tier):
     # named defaults whose canonical ICU name sorts after / before "UTF-8", and an alias of UTF-8
     for dflt in ("windows-1252", "ISO-8859-1", "utf8", "UTF-16LE"):
         for prefer in (-1, 0, 5, 20):
-            for magic in ("none", "v11", "v20"):
+            for magic in ("none", "v11", "v20", "v20-cr"):
                 for force in (0, 1):
                     yield req(prefer, force, "utf8", 0, dflt, MAGICS[magic] + PROBES["list"])
+    for text in TERMINATED_ONLY:
+        for enc in ICU:
+            for sig in (0, 1):
+                for prefer in (-1, 0, 1, 19, 20):
+                    for force in (0, 1):
+                        for dflt in ("~", "="):
+                            yield req(prefer, force, enc, sig, dflt, text)
     for text in EXTRA_TEXTS:
         for enc in ICU:
             for sig in (0, 1):
